@@ -37,7 +37,12 @@ def flags():
 def load_modules():
     mods = {}
     mdir = os.path.join(VERIF, "modules")
+    wip = set()
+    if os.path.exists(os.path.join(mdir, "WIP")) and not os.environ.get("VP_WIP"):
+        wip = set(open(os.path.join(mdir, "WIP")).read().split())
     for m in sorted(os.listdir(mdir)):
+        if m in wip:
+            continue
         p = os.path.join(mdir, m, "spec.json")
         if os.path.exists(p):
             spec = json.load(open(p))
